@@ -268,7 +268,8 @@ func parseShort(s string, specs []*OptionSpec) ([]*Option, bool) {
 
 func findShort(r rune, specs []*OptionSpec) *OptionSpec {
 	for _, opt := range specs {
-		if r == opt.Short {
+		// A zero Short means that the option has no short form.
+		if opt.Short != 0 && r == opt.Short {
 			return opt
 		}
 	}
